@@ -439,8 +439,9 @@ pub fn exec(script: &[WOp], trace: &WTrace) -> WExecOut {
         in_drop: false,
         in_flush_op: false,
         breach: None,
-        // every call of a live writer hands over at least one new byte or is a fault
-        max_calls: total + faults + 8,
+        // every call of a live writer hands over at least one new byte or is a fault (plus slack
+        // for an empty offer per operation)
+        max_calls: total + faults + 2 * script.len() + 8,
     }));
     let mut probes = WProbeLog::default();
     let mut after_flush: Option<WViolation> = None;
